@@ -664,7 +664,7 @@ func (f *FeaturesByID) findAreasByPath(id b6.FeatureID) []b6.AreaFeature {
 				seen[area] = struct{}{}
 				_, ns := area.TypeAndNamespace.Split()
 				for _, am := range f.features[b6.FeatureTypeArea] {
-					if am.Namespaces[b6.FeatureTypeArea] == ns {
+					if am.holdsNamespace(b6.FeatureTypeArea, ns, fb) {
 						if a := f.newArea(am, area.Value); a != nil {
 							areas = append(areas, a)
 							break
